@@ -701,7 +701,10 @@ int ILLsymboltab_uname (
 	{
 		i = 0;
 		sprintf (prefix, "%s", try_prefix[0]);
-		numlen = (log10 ((double) (symtab->tablesize - 1) * 10)) + 1;
+		/* digits of the largest suffix tried; log10 of a non-positive number is
+		 * not a usable array index when the table holds fewer than two names */
+		numlen = (symtab->tablesize > 1) ?
+			(int) (log10 ((double) (symtab->tablesize - 1) * 10)) + 1 : 2;
 		while (!found)
 		{
 			ILL_FAILfalse (i <= nvars, "something wrong in find_unique_name");
